@@ -7,8 +7,12 @@ eigenvalues and on the projectors of complete groups of eigenvectors) with torch
 * groups 'eig' / 'svd' (separated spectra): the same loss on torch.linalg.eigh (through a Cholesky reduction when M is
   given) / torch.linalg.svd of the dense matrix built from the same leaves; first and second order.
 * groups 'eigdeg' / 'svddeg' (exactly repeated eigen/singular values, groups complete inside the selection): autograd of
-  every dense decomposition is undefined there, so the reference is a central finite difference (h = 1e-5) of the
-  independent forward along random directions of the leaves that BREAK the degeneracy.
+  every dense decomposition is undefined there, so the reference is a five-point central finite difference (h = 1e-4,
+  unit direction) of the independent forward along random directions of the leaves that BREAK the degeneracy.
+* loss classes at exact degeneracy: 'group' / 'triplet' (sum of the group's values, projector / rank-one terms: must hold);
+  'spectral' / 'proj' (eigenvalue-weighted group terms, one-sided singular projectors: structurally wrong in xitorch on every
+  path - reported under their own mechanism keys, see known findings); suffix '_full' = the repeated value fills the space.
+* a FORWARD that raises or is inaccurate is C05's subject and is skipped here (counted).
 """
 import random
 import sys
@@ -757,7 +761,7 @@ def _run_svd(desc, obs):
     method, fwd = _method_arg(desc["method"])
     bck = _bck_options(desc["bck"], mn)
     counter = {}
-    uside = (not degen) or desc.get("loss") == "proj"
+    proj = (not degen) or desc.get("loss") == "proj"
     kw = dict(fwd)
     if desc["method"] != "exacteig":
         kw["bck_options"] = bck
@@ -775,7 +779,7 @@ def _run_svd(desc, obs):
                 obs.check(False, _mech(desc, "shape"), "svd returned shapes %s %s %s" % (tuple(U.shape), tuple(S.shape), tuple(Vh.shape)))
                 obs.nontrivial = True
                 return
-            loss = _svd_loss(U, S, Vh, groups, cot, uside)
+            loss = _svd_loss(U, S, Vh, groups, cot, proj)
             g1, = torch.autograd.grad(loss, [PA], create_graph=bool(desc.get("order2")), allow_unused=True)
         except Exception as ex:
             if isinstance(ex, HarnessBug):
@@ -813,7 +817,7 @@ def _run_svd(desc, obs):
         ok_reach = (sp.n["solve"] >= 1) if desc["method"] != "exacteig" else (sp.n["dense_bwd"] >= 1)
         obs.count("svd_cases_compared")
         if not degen:
-            lossr = _svd_loss(Ur, Sr, Vhr, groups, cot, uside)
+            lossr = _svd_loss(Ur, Sr, Vhr, groups, cot, proj)
             r1, = torch.autograd.grad(lossr, [PA], create_graph=bool(desc.get("order2")))
             err = _relerr(g1.detach(), r1.detach())
             _cmp(obs, err, tol1, _mech(desc, "first:dPA"),
@@ -846,7 +850,7 @@ def _run_svd(desc, obs):
             nz, worst = True, 0.0
             for rep in range(3):
                 d = _direction(g1, tgen)
-                fd = _fd(lambda lv2: _svd_loss(*_ref_svd(lv2["PA"], idx), groups, cot, uside), leaves, "PA", d)
+                fd = _fd(lambda lv2: _svd_loss(*_ref_svd(lv2["PA"], idx), groups, cot, proj), leaves, "PA", d)
                 an = _inner(g1.detach(), d)
                 err = abs(an - fd) / max(1.0, abs(fd))
                 worst = max(worst, err)
